@@ -900,8 +900,8 @@ func (t *Typechecker) checkFieldAccess(Lhs *ast.Ident, originalType ddptypes.Typ
 
 	// if the type was imported, check for public/private fields
 	if structDecl, exists, _ := t.CurrentTable.LookupDecl(structType.Name); exists {
-		structDecl := structDecl.(*ast.StructDecl)
-		if structDecl.Mod != t.Module {
+		// the name may be shadowed by another declaration (e.g. a local variable)
+		if structDecl, isStructDecl := structDecl.(*ast.StructDecl); isStructDecl && structDecl.Mod != t.Module {
 			for _, field := range structDecl.Fields {
 				if field.Name() == Lhs.Literal.Literal {
 					if field, ok := field.(*ast.VarDecl); ok && !field.IsPublic {
